@@ -555,6 +555,18 @@ fn main() {
         dump(if args.iter().any(|a| a == "thorough") { Tier::Thorough } else { Tier::Quick });
         return;
     }
+    if let Some(k) = args.iter().position(|a| a == "--find") {
+        // --find <archive-id> <offset> [thorough]: index of the `faults` case
+        install_panic_hook();
+        let f = Faults::new(if args.iter().any(|a| a == "thorough") { Tier::Thorough } else { Tier::Quick });
+        let off: u32 = args[k + 2].parse().unwrap();
+        for (i, &(a, _, o)) in f.cases.iter().enumerate() {
+            if f.built[a as usize].spec.id == args[k + 1] && o == off {
+                println!("{i}");
+            }
+        }
+        return;
+    }
     if let Some(k) = args.iter().position(|a| a == "--explain") {
         install_panic_hook();
         explain(if args.iter().any(|a| a == "thorough") { Tier::Thorough } else { Tier::Quick }, args[k + 1].parse().unwrap());
